@@ -112,6 +112,9 @@ def run_tlc(module, cfg, workers=8, timeout=600, extra=None, tag=None, env_extra
     m2 = re.search(r"Error: Action property (\S+) is violated", out)
     if m2:
         res["violated"] = m2.group(1)
+    m3 = re.search(r"Error: Temporal property (\S+) was violated", out)
+    if m3:
+        res["violated"] = res["violated"] or m3.group(1)
     if "Temporal properties were violated" in out:
         res["violated"] = res["violated"] or "temporal"
     if res["violated"]:
